@@ -441,6 +441,8 @@ static void gen_c11(const std::string& tier, std::vector<Work>& W) {
                 std::vector<gen::Key> k3 = {keys[2], gen::make_key(5), gen::make_key(6)};
                 Inst I = instantiate(T[ti], c, k3, {1});
                 compare_explicit(c, I.script, I.stack, fl, T[ti].name + " with unlisted keys, list=" + ldesc, "mock:non-interference", V, S, L, true, false, "c11");
+                // a well-encoded signature by an unlisted key that does not verify: NULLFAIL (and every other rule) applies as without the option
+                { auto sb = I.stack; if (sb.back().size() > 10) { sb.back()[sb.back().size() - 2] ^= 0x01; compare_explicit(c, I.script, sb, fl, T[ti].name + " well-encoded invalid signature for an unlisted key, list=" + ldesc, "mock:non-interference:invalid-signature", V, S, L, true, false, "c11"); } }
                 auto st = I.stack; st.back() = s1;   // a listed *signature* offered to an unlisted key must not be accepted either
                 compare_explicit(c, I.script, st, fl & ~(F_STRICTENC | F_DERSIG | F_LOW_S | F_NULLFAIL), T[ti].name + " listed signature for an unlisted key, list=" + ldesc, "mock:listed-sig-unlisted-key", V, S, L, true, false, "c11");
             }
